@@ -63,10 +63,10 @@ class Gen:
         self.r = rng
         self.cfg = dict(big_lits=True, floats=True, strings=True, lists=True, funcs=True, lambdas=True, loops=True,
                         conds=True, patterns=True, interp=True, zero_div=False, max_depth=4, n_stmts=(3, 10),
-                        hard_strings=False, str_mul=True, bare_expr=False, if_stmt=True)
+                        hard_strings=False, str_mul=True, bare_expr=False, if_stmt=True, whiles=True)
         if cfg.get("stage1"):
             # the straight-line scalar fragment of the C01 stage-1 theorem
-            self.cfg.update(floats=False, lists=False, funcs=False, lambdas=False, loops=False, conds=True,
+            self.cfg.update(floats=False, lists=False, funcs=False, lambdas=False, loops=True, whiles=False, conds=True,
                             patterns=False, interp=False, str_mul=False, bare_expr=True, if_stmt=False)
         cfg = {k: v for k, v in cfg.items() if k != "stage1"}
         self.cfg.update(cfg)
@@ -308,7 +308,7 @@ class Gen:
             if r.chance(1, 2):
                 body.append(("print", [("var", i, "Nat")]))
             return ("for", i, lo, hi, body)
-        if k == 14 and self.cfg["loops"]:
+        if k == 14 and self.cfg["loops"] and self.cfg["whiles"]:
             self.features.add("while")
             c = self.fresh("c")
             n = r.below(4)
